@@ -43,15 +43,26 @@
   dropped for lack of room), `params_wf_of_nodup`, `hdrs_wf_of_nodup`, `uri_wf_of_parse` (every accepted URI whose
   list names are duplicate-free up to letter case satisfies the hypotheses of the laws). Laws for RAW strings
   (≤ 65,535 bytes): `refl_raw` (accepted, lists parse, duplicate-free names ⇒ equal to itself for every flag set, both
-  parsed URIs handed back), `symm_raw`, `symm_raw_full` (any two strings, accepted or not), `presence_raw`
+  parsed URIs handed back), `symm_raw`, `symm_raw_full` (the complete results with the parsed URIs swapped; both strings accepted), `presence_raw`
   (user / ttl / method / maddr in any letter case: in both texts or in neither, ≤ 100 parameters), letter case with NO
   side condition: `parse_uri_case` (ParseURI returns the identical result on strings differing only in letter case),
   `cmp_case_raw`, `cmp_host_case_raw` (same text up to case outside user / password ⇒ the complete URIParseCmp result
   is unchanged). `refl_needs_lists_ok`, `symm_needs_nodup`: the two hypotheses are necessary (`sip:a@b;<` is accepted
   by ParseURI but not equal to itself because its parameter list is rejected; `sip:a@b;x=1;X=2`).
 
+  The laws on URI TEXT (`Sipsp.Proofs.UriCmpPerm`): a URI rendered from parts — scheme in any case, optional
+  user[:password]@, host name, optional :port, parameter items `name[=value]` joined with ';', header items joined with
+  '&' (plain token names / values, names duplicate-free up to case, ≤ 100 items, text ≤ 65,535 bytes) — is a URI of the
+  C14 grammar with lists of the C17 grammar, and: `text_spec` (URIParseCmp on two renderings never panics, reports no
+  error, hands back both parsed URIs, and says "equal" EXACTLY when an explicit predicate on the parts holds),
+  `perm_text` (reordering parameter and / or header items: equal, both argument orders, every flag set), `case_text`,
+  `case_text_gen`, `congr_text` (letter case of scheme, host, parameter names / values, header names / values),
+  `user_case_text`, `pass_case_text`, `user_skip_text` (user / password differing in case: UNEQUAL unless skipped),
+  `presence_text` (a user / ttl / method / maddr item in only one text: unequal), `extra_param_text` (any other item
+  present in only one text does not matter).
+
   NOT proved here:
-    * order invariance at the raw-string level (the permutation law takes the parsed lists);
+    * the text-level laws for texts outside that rendering (white space, quoted values, empty items, `[…]` hosts, tel:);
     * the presence rule beyond 100 parameters (the mask then also covers dropped parameters);
     * transitivity of URICmp (false in general: parameters present in only one URI are ignored);
     * behaviour with more than 100 parameters / headers beyond what the hypotheses say about the stored prefix.
@@ -59,6 +70,7 @@
 -/
 import Sipsp.Proofs.UriCmpLaws
 import Sipsp.Proofs.UriCmpLink
+import Sipsp.Proofs.UriCmpPerm
 
 namespace Sipsp.C15
 open Sipsp
@@ -467,5 +479,49 @@ theorem refl_needs_lists_ok : type_of% @Sipsp.ucl_refl_needs_listsOk := @Sipsp.u
 /-- the hypothesis `UclNoDup` is necessary for reflexivity and for symmetry (names equal up to case count as
     duplicates) -/
 theorem symm_needs_nodup : type_of% @Sipsp.ucl_needs_nodup := @Sipsp.ucl_needs_nodup
+
+/-! ### the laws on URI TEXT (renderings from parts): order, letter case, user case, presence (proved in `Sipsp.Proofs.UriCmpPerm`) -/
+
+/-- [EXPORT C15] **URIParseCmp on two renderings**: no panic, no error, both parsed URIs handed back (they are `ucpmURI`), and the
+    verdict is "equal" exactly when the parts are equal in the sense of `UcpmSpec` — for every flag value -/
+theorem text_spec : type_of% @Sipsp.uriParseCmp_text_spec := @Sipsp.uriParseCmp_text_spec
+
+/-- [EXPORT C15] **(2) ORDER OF PARAMETERS AND HEADERS, on the text**: a rendering and the rendering of the same parts with the
+    parameter items and / or the header items in another order compare EQUAL under `uriParseCmp` (URIParseCmp /
+    URIRawCmp) for every flag set: verdict true, no error, no panic, both parsed URIs handed back. -/
+theorem perm_text : type_of% @Sipsp.uriParseCmp_perm_text := @Sipsp.uriParseCmp_perm_text
+
+/-- [EXPORT C15] **(3) LETTER CASE, on the text**: two renderings that differ only in the letter case of scheme, host, parameter
+    names / values and header names / values compare EQUAL for every flag set. -/
+theorem case_text : type_of% @Sipsp.uriParseCmp_case_text := @Sipsp.uriParseCmp_case_text
+
+/-- [EXPORT C15] … and re-casing either side does not change the verdict against any third rendering -/
+theorem case_text_gen : type_of% @Sipsp.uriParseCmp_case_text_gen := @Sipsp.uriParseCmp_case_text_gen
+
+/-- [EXPORT C15] **ORDER AND LETTER CASE ON THE TEXT, general form**: the verdict of URIParseCmp on two renderings is unchanged when
+    either one is replaced by a rendering of the same parts up to the order of the parameter / header items and the
+    letter case of scheme, host, parameter names / values and header names / values; no panic, no error, each call
+    hands back the URIs parsed from its own two texts -/
+theorem congr_text : type_of% @Sipsp.uriParseCmp_congr_text := @Sipsp.uriParseCmp_congr_text
+
+/-- [EXPORT C15] **(4) USER, on the text**: renderings with different user bytes (e.g. another letter case) compare UNEQUAL when
+    the user comparison is not skipped -/
+theorem user_case_text : type_of% @Sipsp.uriParseCmp_user_case_text := @Sipsp.uriParseCmp_user_case_text
+
+/-- [EXPORT C15] **(4) PASSWORD, on the text** -/
+theorem pass_case_text : type_of% @Sipsp.uriParseCmp_pass_case_text := @Sipsp.uriParseCmp_pass_case_text
+
+/-- [EXPORT C15] **(4) … unless skipped**: renderings that agree in everything but user and password compare EQUAL when the
+    flags skip each of the two that differs -/
+theorem user_skip_text : type_of% @Sipsp.uriParseCmp_user_skip_text := @Sipsp.uriParseCmp_user_skip_text
+
+/-- [EXPORT C15] **(5) PRESENCE RULE, on the text**: a rendering with a `user` / `ttl` / `method` / `maddr` parameter item (any
+    letter case) and a rendering without one compare UNEQUAL, in either order, when the parameters are not skipped -/
+theorem presence_text : type_of% @Sipsp.uriParseCmp_presence_text := @Sipsp.uriParseCmp_presence_text
+
+/-- [EXPORT C15] **(5) … while a parameter with any OTHER name present in only one of the two does not matter**: a rendering and
+    the rendering with one more parameter item (anywhere in the list) whose name is none of user / ttl / method /
+    maddr compare EQUAL, in either order, for every flag set -/
+theorem extra_param_text : type_of% @Sipsp.uriParseCmp_extra_param_text := @Sipsp.uriParseCmp_extra_param_text
 
 end Sipsp.C15
